@@ -160,6 +160,14 @@ pub fn run_point(rep: &mut Report, rng: &mut Rng, thorough: bool, index: usize) 
                 inputs.insert(0, d);
             }
         }
+        if (4096..=(1u32 << 17)).contains(&o.dict) {
+            // data with period dict + 1 (and dict): the match finders' reach ends exactly there
+            for extra in [1usize, 0] {
+                let period = o.dict as usize + extra;
+                let base = rng.bytes(period);
+                inputs.insert(0, (0..period * 2 + 700).map(|k| base[k % period]).collect());
+            }
+        }
         let mut first = true;
         for data in &inputs {
             let huge_dict = o.dict > (1 << 28);
